@@ -1,4 +1,5 @@
 import OdcGeo.Model.C12
+import OdcGeo.Model.C12Gi
 import OdcGeo.Drv.C04
 namespace OdcGeo.C12.Drv
 open OdcGeo OdcGeo.IO OdcGeo.C17 OdcGeo.C04 OdcGeo.C12
@@ -22,6 +23,47 @@ def fmtIdxs (xs : List (Int × Int)) : String := fmtList fmtPair xs
 def fmtRange (r : Int × Int) : String := s!"{r.1}:{r.2 + 1}"
 
 def parseFlags? (s : String) : Option (List Bool) := parseList? parseBool? s
+
+/-- a CRS tag: `N` or a natural number -/
+def parseCrs? (s : String) : Option (Option Nat) := parseOpt? parseNat? s
+
+/-- `crs lin W ny nx ty tx` -/
+def parseTGB? (crs lin W ny nx ty tx : String) : Option TGB := do
+  let crs ← parseCrs? crs; let lin ← parseBool? lin; let W ← parseAff? W
+  let g ← parseGBT? ny nx ty tx
+  pure ⟨crs, lin, W, g⟩
+
+/-- `x1;y1;x2;y2;x3;y3;x4;y4` -/
+def parseQuad? (s : String) : Option Quad :=
+  match (s.splitOn ";").mapM parseRat? with
+  | some [a, b, c, d, e, f, g, h] => some ⟨(a, b), (c, d), (e, f), (g, h)⟩
+  | _ => none
+
+def fmtDeps (l : List ((Int × Int) × List (Int × Int))) : String :=
+  fmtList (fun (idx, deps) => s!"{fmtPair idx}={fmtIdxs deps}") l
+
+/-- the `Foreign` parameter of `gridIntersect` from the tokens of the `generalr` op (`-` = nothing) -/
+def parseForeign? (d s : GBT) (fpEmpty fp dflags exts sflags : String) : Option Foreign := do
+  let fpEmpty ← parseBool? fpEmpty
+  if fp = "-" then
+    pure ⟨fpEmpty, ⟨0, 0, 0, 0⟩, fun _ => true, fun _ => ⟨0, 0, 0, 0⟩, fun _ _ => true⟩
+  else
+    let fp ← parseBBox? fp; let df ← parseFlags? dflags
+    let ebs ← if exts = "-" then some [] else (exts.splitOn "|").mapM parseBBox?
+    let sfs ← if sflags = "-" then some [] else (sflags.splitOn "|").mapM parseFlags?
+    let dc := match candidates d fp with
+      | .ok dc => dc
+      | .error _ => []
+    let kept := (dc.zip df).filter (fun p => !p.2) |>.map (·.1)
+    let lookup {α} (xs : List ((Int × Int) × α)) (k : Int × Int) : Option α :=
+      (xs.find? (fun p => p.1 == k)).map (·.2)
+    let dDis := fun k => (lookup (dc.zip df) k).getD true
+    let ext := fun k => (lookup (kept.zip ebs) k).getD ⟨0, 0, 0, 0⟩
+    let sDis := fun k s' =>
+      match lookup (kept.zip sfs) k, candidates s (ext k) with
+      | some f, .ok c => (lookup (c.zip f) s').getD true
+      | _, _ => true
+    pure ⟨fpEmpty, fp, dDis, ext, sDis⟩
 
 def run (args : List String) : Option String :=
   match args with
@@ -98,6 +140,41 @@ def run (args : List String) : Option String :=
       | none => true
     pure (fmtList (fun (idx, deps) => s!"{fmtPair idx}={fmtIdxs deps}")
       (gridIntersectGeneral dc dDis sCand sDis))
+  | ["gi", dcrs, dlin, dW, dny, dnx, dty, dtx, scrs, slin, sW, sny, snx, sty, stx, ttol, stol, tol, sttol,
+      fpEmpty, fp, dflags, exts, sflags] => do
+    -- the public `grid_intersect(src)`: which path is taken is decided by the model
+    let d ← parseTGB? dcrs dlin dW dny dnx dty dtx; let s ← parseTGB? scrs slin sW sny snx sty stx
+    let ttol ← parseRat? ttol; let stol ← parseRat? stol; let tol ← parseRat? tol
+    let sttol ← parseRat? sttol
+    let fr ← parseForeign? d.g s.g fpEmpty fp dflags exts sflags
+    let path := match checkLinearT d s ttol stol tol sttol with
+      | .ok (some _) => "linear"
+      | .ok none => if s.crs = d.crs then (if d.linear && s.linear then "same-crs" else "param")
+                    else if fr.fpEmpty then "empty" else "param"
+      | .error _ => "err"
+    pure (path ++ " " ++ fmtRes fmtDeps (gridIntersect d s ttol stol tol sttol fr))
+  | ["tq", crs, lin, W, ny, nx, ty, tx, kind, qcrs, q] => do
+    -- the public `tiles(query)`; `toCrs` is never needed on the exact stream (same CRS or an error branch)
+    let t ← parseTGB? crs lin W ny nx ty tx
+    let qcrs ← parseCrs? qcrs
+    let query ← match kind, qcrs with
+      | "pix", none => (parseBBox? q).map Query.pixBox
+      | "box", some c => (parseBBox? q).map (Query.box c)
+      | "quad", c => (parseQuad? q).map (Query.quad c)
+      | _, _ => none
+    pure (fmtRes fmtIdxs (tilesQuery t (fun _ _ _ => .error .notImplemented) query))
+  | ["tqfound", crs, lin, W, ny, nx, ty, tx, q] => do
+    -- candidates of a geometry query as found (before fix2-C12) and as repaired
+    let t ← parseTGB? crs lin W ny nx ty tx; let q ← parseQuad? q
+    pure (fmtRes fmtIdxs (candidatesAsFound t q) ++ " " ++ fmtRes fmtIdxs (candidatesWorld t.g t.W id q.bbox))
+  | ["cvx", p, q] => do
+    -- reference semantics of shapely `disjoint` on convex rings
+    let p ← parseQuad? p; let q ← parseQuad? q
+    pure (fmtBool (Spec.Convex.disjoint p.toList q.toList))
+  | ["ext", crs, lin, W, ny, nx, ty, tx, iy, ix] => do
+    let t ← parseTGB? crs lin W ny nx ty tx; let iy ← parseInt? iy; let ix ← parseInt? ix
+    let fq := fun (q : Quad) => ";".intercalate (q.toList.flatMap fun p => [fmtRat p.1, fmtRat p.2])
+    pure (fq t.extent ++ " " ++ fmtRes fq (tileExtent t (iy, ix)))
   | _ => none
 
 end OdcGeo.C12.Drv
